@@ -816,7 +816,12 @@ class Project(MessageHandler):
             total_days_needed = max(total_days_needed, int((work_days_needed + gap_days) * 1.5) + 7)
 
         # Calculate minimum required end date
-        min_end_date = self.attributes["start"] + timedelta(days=total_days_needed)
+        try:
+            min_end_date = self.attributes["start"] + timedelta(days=total_days_needed)
+        except OverflowError:
+            # Work or gaps beyond the calendar: nothing to extend to; what does not fit the
+            # declared horizon stays unscheduled
+            return
 
         # Extend project end if needed
         if min_end_date > self.attributes["end"]:
